@@ -1107,7 +1107,7 @@ func RunSliceExpr(ctx *Task, expr *ast.SliceExpr) (any, ast.DType, *errchain.PlE
 				startInt = 0
 			}
 			for i := startInt; i < endInt && i < length; i += stepInt {
-				result += string(str[i])
+				result += str[i : i+1]
 			}
 			return result, ast.String, nil
 		} else {
@@ -1116,7 +1116,7 @@ func RunSliceExpr(ctx *Task, expr *ast.SliceExpr) (any, ast.DType, *errchain.PlE
 				startInt = length - 1
 			}
 			for i := startInt; i > endInt && i >= 0; i += stepInt {
-				result += string(str[i])
+				result += str[i : i+1]
 			}
 			return result, ast.String, nil
 		}
